@@ -137,7 +137,7 @@ C['vf_var_holds_i'] = (B('second'), [], ['__CPROVER_return_value == !second'], '
 def make(tier):
     P = Plan('C04', level='proof', design_ref='DESIGN.md section 5 C04')
     P.not_decided += ['either::try_call (depends on catching an exception: unwinding is dropped by the extraction)', 'optional::cat / optional::sequence / either::sequence over std::vector sources (heap containers; they are checked on fixed-capacity containers)',
-                      'variant::apply with several variants, variant::compare']
+                      'variant::apply with more than two variants']
     P.meta += ['payload types are unsigned/int over their full 32-bit domain and continuations are uninterpreted: by parametricity of the templates the results carry over to all value types and all functions']
     spec = ''
     for f, (req, asg, ens, what) in C.items():
@@ -187,4 +187,19 @@ def make(tier):
     us = P.unit('seq', 'seq.cpp', specs=['c04s.spec'], inline=True)
     for f, (req, asg, ens, what) in S.items():
         us.contract(f, cls='W', unwind=6, backends=['sat', 'cvc5'], what=what, timeout=600, bound='fixed-capacity source and result containers with symbolic size <= 3: loops bounded by the capacity, unwinding assertions on')
+    # ---- variant::apply with two variants, variant::compare (var2.cpp)
+    P.generated['var2_ghost.h'] = 'u32 __CPROVER_uninterpreted_ap(u32, u32, u32);\nu8 __CPROVER_uninterpreted_cmp(u32, u32, u32);\nstatic unsigned c_ap, c_cmp; static u32 l_kind;\n'
+    P.generated['var2_h.c'] = ('u32 vf_ap(u32 k, u32 x, u32 y){ ++c_ap; l_kind = k; return __CPROVER_uninterpreted_ap(k, x, y); }\n'
+                               '_Bool vf_cmp(u32 k, u32 x, u32 y){ ++c_cmp; l_kind = k; return __CPROVER_uninterpreted_cmp(k, x, y) & 1; }\n')
+    BB = '(s1 == 0 || s1 == 1) && (s2 == 0 || s2 == 1)'
+    X1 = '(s1 ? b1 : a1)'; X2 = '(s2 ? b2 : a2)'; KIND = '(2 * s1 + s2)'
+    vspec = ('function vf_var_apply2\n  __CPROVER_requires(%s)\n  __CPROVER_assigns(c_ap, c_cmp, l_kind)\n' % BB +
+             '  __CPROVER_ensures(__CPROVER_return_value == __CPROVER_uninterpreted_ap(%s, %s, %s) && c_ap == __CPROVER_old(c_ap) + 1 && l_kind == %s)\n' % (KIND, X1, X2, KIND) +
+             'function vf_var_compare\n  __CPROVER_requires(%s)\n  __CPROVER_assigns(c_ap, c_cmp, l_kind)\n' % BB +
+             '  __CPROVER_ensures(__CPROVER_return_value == (s1 == s2 && (__CPROVER_uninterpreted_cmp(3 * s1, %s, %s) & 1)))\n' % (X1, X2) +
+             '  __CPROVER_ensures(c_cmp == __CPROVER_old(c_cmp) + (s1 == s2 ? 1 : 0) && VF_IMP(s1 == s2, l_kind == 3 * s1))\n')
+    P.generated['var2.spec'] = vspec
+    uv = P.unit('var2', 'var2.cpp', specs=['var2.spec'], harness=['var2_h.c'], pre=['var2_ghost.h'], inline=True)
+    uv.contract('vf_var_apply2', cls='P', backends=['sat', 'cvc5'], native=False, timeout=600, what='variant::apply with two variants: the function is invoked exactly once, with the overload and the values of the two held alternatives')
+    uv.contract('vf_var_compare', cls='P', backends=['sat', 'cvc5'], native=False, timeout=600, what='variant::compare: false for different alternatives (the comparison is not invoked), otherwise the comparison of the two held values')
     return P
